@@ -986,6 +986,12 @@ def call_builtin(ip, st, f, args, kwargs):
                 return ip.call_fnval(st, FnVal(ref), args, kwargs)
     if isinstance(f, types.MethodType):
         raise Unsupported(f"call of bound real method {f!r}")
+    # "sep".join(list) where the list has a concrete length and concrete str items on this path: CPython's own join
+    # on a snapshot of the items (a list is a reference value here, hence not covered by the native rule below)
+    if getattr(f, "__name__", "") == "join" and isinstance(getattr(f, "__self__", None), str) and len(args) == 1 and not kwargs:
+        items = args[0].seq if isinstance(args[0], LRef) else args[0]
+        if isinstance(items, tuple) and all(isinstance(x, str) for x in items):
+            return f(list(items))
     # concrete call on concrete data of immutable builtin types: evaluate natively
     if _all_conc(args) and _all_conc(list(kwargs.values())) and _native_ok(f, args):
         try:
